@@ -71,7 +71,7 @@ class newton_solver:
                 log(f"Beginning Newton iteration with initial guess = {self.initial_guess} \n Tolerance is set to {self.tolerance} \n Number of iterations allowed = {self.max_iterations} \n") # Output information at the beginning of the iteration.    
                 iteration_counter = 0
                 self.x_old = self.initial_guess # Set x_old to the initial guess.
-                while(self.residual > self.tolerance or self.error > self.tolerance): # Enter while loop; checking if residual is larger than tolerance 
+                while not (self.residual <= self.tolerance and self.error <= self.tolerance): # Enter while loop; checking if residual is larger than tolerance 
                       if(iteration_counter >= self.max_iterations): # Checking if the current iteration is larger than the max iteration allowed.
                             # log(f"Exceeded number of iterations. Exiting iteration.")
                             raise IterationError("Exceeded number of iterations. Exiting iteration.")                 
